@@ -39,6 +39,9 @@ ForeignSends == [i \in 1..3 |->
 
 Init == S = InitState /\ sched = <<>> /\ todo = FundPrefix \o ForeignSends
 
+\* every walk ends with a genesis export / import of the ibc and transfer modules on each chain (C44: identity)
+ExportTail == << [a |-> "ExportImport", c |-> "A"], [a |-> "ExportImport", c |-> "B"], [a |-> "ExportImport", c |-> "C"] >>
+
 Rl(n) == IF n = 1 THEN "rly" ELSE IF n = 2 THEN "u1" ELSE IF n = 3 THEN "u2" ELSE "u3"
 
 Relay(name, e, seq, rl) == [a |-> name, c |-> IF name = "Recv" THEN EndChain(Peer(e)) ELSE EndChain(e), e |-> e, seq |-> seq, rl |-> rl]
@@ -146,7 +149,7 @@ Next ==
           /\ todo' = Follow(S, Head(plan), r) \o Tail(plan)
           /\ Len(sched') = Depth =>
                 JsonSerialize(OutDir \o "/s" \o ToString(TLCGet("stats").traces) \o "_" \o ToString(RandomElement(1..1000000)) \o ".json",
-                              [kind |-> "walk", uniq |-> (roll % 2 = 0), acts |-> sched'])
+                              [kind |-> "walk", uniq |-> (roll % 2 = 0), acts |-> sched' \o ExportTail])
 
 Spec == Init /\ [][Next]_<<S, sched, todo>>
 =============================================================================
